@@ -10,10 +10,12 @@ use std::time::Duration;
 
 const EPS_MAX: u64 = 1_000_000; // 1 ms of scheduling slack per wait
 
-static mut VNOW: u64 = 0;
-static mut WAITS: u32 = 0;
-static mut REQ_SECS: u64 = 0; // total requested, seconds part
-static mut REQ_NANOS: u64 = 0; // total requested, nanoseconds part (not normalised)
+// (statics have distinctive non-zero initial values and are explicitly initialised: Kani 0.68 can alias a
+// constant allocation with a static whose initial bytes are identical, see c16_io.rs)
+static mut VNOW: u64 = 0x141;
+static mut WAITS: u32 = 0x142;
+static mut REQ_SECS: u64 = 0x143; // total requested, seconds part
+static mut REQ_NANOS: u64 = 0x144; // total requested, nanoseconds part (not normalised)
 static mut LAST: Option<Duration> = None;
 static mut NONE_WAIT: bool = false;
 
@@ -136,7 +138,7 @@ fn c14_nanosleep_all_timespec() {
 }
 
 // ---------------------------------------------------------------- poll
-static mut POLL_CALLS: u32 = 0;
+static mut POLL_CALLS: u32 = 0x145;
 static mut POLL_READY_AT: u32 = u32::MAX;
 static mut POLL_BAD_TIMEOUT: bool = false;
 extern "C" fn mock_poll(_fds: *mut libc::pollfd, _n: libc::nfds_t, timeout: c_int) -> c_int {
@@ -218,7 +220,7 @@ fn c14_poll_ready_returns_result() {
 }
 
 // ---------------------------------------------------------------- select
-static mut SEL_CALLS: u32 = 0;
+static mut SEL_CALLS: u32 = 0x146;
 static mut SEL_BAD_TIMEOUT: bool = false;
 extern "C" fn mock_select(
     _n: c_int,
@@ -318,7 +320,7 @@ fn c14_select_invalid_timeval() {
 }
 
 // ---------------------------------------------------------------- pthread_cond_timedwait
-static mut COND_CALLS: u32 = 0;
+static mut COND_CALLS: u32 = 0x147;
 static mut COND_EARLY: bool = false;
 extern "C" fn mock_cond_timedwait(
     _c: *mut libc::pthread_cond_t,
